@@ -12,6 +12,8 @@ CONSTANTS
  Gates = {FALSE}
  DL1 <- DL24
  DL2s <- DLN3
+ W2 <- WT
+ LB2 <- LA
  W3 <- WT
  Res <- R4
 INVARIANTS Safety
